@@ -1,10 +1,133 @@
-(* PropsJson.v — the JSON halves of C04 and C05 (theorems proved in JsonProofs.v), re-exported under the names the
-   coordinator splices into Props/C04.v and Props/C05.v. *)
-From Cassis Require Import Base Heap Schema Canon Reach JsonDoc Json JsonProofs.
+(* PropsJson.v — the JSON halves of C04 and C05: theorems proved in JsonProofs.v / JsonProofs2.v / JsonLex.v, re-exported
+   under the names to be spliced into Props/C04.v and Props/C05.v.  Only `exact` proofs, Print Assumptions and
+   non-vacuity examples.
+
+   Reading guide: `denote_json L s d` (JsonDoc.v) is the declarative reading of a JSON-CAS document — the independent
+   implementation of the format; `save_json` / `load_json` (Json.v) model cassis/json.py; `canon_json s c` is the content
+   of a CAS (sofa data, view membership, every structure under its id with every value, references as ids).  L is the
+   lexical layer (UTF-8, base64); `std_lex_ok` instantiates it.  Boolean premises (evaluated on every generated case):
+   wf_jsonb (distinct view names / sofa ids, encodable texts, structures typed, plain distinct feature names, arrays hold
+   lists, annotations carry a sofa of this CAS and offsets inside its text), ids_distinctb (sofa ids, byte-array ids and
+   structure ids apart), refs_wfb (no id 0, the schema calls exactly the ArrayBase subtypes arrays, `sofa` features hold
+   sofas), doc_ok_json (well-formed document). *)
+From Cassis Require Import Base Heap Schema Canon Reach JsonDoc Json JsonProofs JsonProofs2 JsonLex CorrC02.
 Open Scope Z_scope.
 
+(* ================================================================================================ C04, JSON half *)
+
+(* faithful: read with the independent reader, the written document describes exactly the CAS the save leaves behind
+   (types, every feature value, element order of collections, offsets in code points, sofa data, view membership;
+   shared structures stay shared because references are ids).  The former premise `stableb` is discharged
+   (ReachSpec.find_all_fs_stable); 0 < c_next_id says the id generator hands out positive ids. *)
 Theorem C04_json_denote_save : forall L s mode c d c',
-  lex_ok L -> save_json L s mode c = Ok (d, c') -> wf_jsonb s c' = true -> stableb L s c = true ->
+  lex_ok L -> save_json L s mode c = Ok (d, c') -> wf_jsonb s c' = true -> 0 < c_next_id c ->
   denote_json L s d = canon_json s c'.
 Proof. exact denote_save_json. Qed.
 Print Assumptions C04_json_denote_save.
+
+(* all ids of the document are distinct *)
+Theorem C04_json_ids_distinct : forall L s mode c d c',
+  lex_ok L -> save_json L s mode c = Ok (d, c') -> wf_jsonb s c' = true -> 0 < c_next_id c ->
+  ids_distinctb s c' = true -> doc_ids_distinctb d = true.
+Proof. exact json_ids_distinct. Qed.
+Print Assumptions C04_json_ids_distinct.
+
+(* every reference ('@' members incl. TOP-ranged features, list head / tail, shared collections, @sofa, @sofaArray),
+   every FSArray element, every view member and every %SOFA resolves inside the document: closed under reachability
+   (ReachProofs.find_all_closed / find_all_contains_seeds / ids_assigned, ReachSpec.succs_declarative) *)
+Theorem C04_json_refs_resolve : forall L s mode c d c',
+  lex_ok L -> save_json L s mode c = Ok (d, c') -> wf_jsonb s c' = true -> 0 < c_next_id c ->
+  refs_wfb s c' = true -> doc_refs_resolveb d = true.
+Proof. exact json_refs_resolve. Qed.
+Print Assumptions C04_json_refs_resolve.
+
+(* each structure found is present exactly once, under the id it carries: the entries of the document are the sofas with
+   their byte arrays followed by one entry per structure the traversal returns (ReachProofs.find_all_exact: exactly the
+   structures reachable from the indexed ones; find_all_each_once: each once) *)
+Theorem C04_json_entries : forall L s mode c d c',
+  lex_ok L -> save_json L s mode c = Ok (d, c') -> wf_jsonb s c' = true -> 0 < c_next_id c ->
+  exists w (Ev Ef : list entry),
+    find_all_fs true s c' = Ok w /\ fs_entries d = Ok (Ev ++ Ef) /\
+    map fst Ev = flat_map (fun v => arr_ids c' v ++ [s_xid (v_sofa v)]) (c_views c) /\
+    map fst Ef = map fst (sort_ids (w_all w)).
+Proof.
+  intros L s mode c d c' HL Hs Hw Hp.
+  destruct (save_json_entries L s mode c d c' HL Hs Hw Hp) as (w & outs & fss & Ev & Ef & sofas & E1 & _ & Ew & _ & _ & _ & _ & HV & HF & _).
+  exists w, Ev, Ef. split; [exact Ew|]. split; [exact E1|]. split; [exact (proj1 HV)|exact (proj1 HF)].
+Qed.
+Print Assumptions C04_json_entries.
+
+(* Full statement json_doc_ok:  save_json L s mode c = Ok (d, c') -> premises -> doc_ok_json L s d = true.
+   Proved: the closed part of doc_ok_json (C04_json_ids_distinct, C04_json_refs_resolve).  Not proved for all inputs: the
+   remaining conjuncts of doc_ok_json (member names are features of the type, values are of the kind of the range, no
+   member twice); they are evaluated in Coq on every document cassis writes (CorrC04json.check_case04). *)
+
+(* the lexical layer: UTF-8 and base64 as implemented in JsonDoc.v satisfy the contract *)
+Theorem C04_json_std_lex_ok : lex_ok std_lex.
+Proof. exact std_lex_ok. Qed.
+Print Assumptions C04_json_std_lex_ok.
+
+(* ================================================================================================ C05, JSON half *)
+
+(* documents that present the same content — feature structures in any order (forward references, sofas anywhere), as an
+   array or as an id-keyed object, members in any order, views in any order, members of the document in any order,
+   whatever %TYPES says — describe the same CAS *)
+Theorem C05_json_presentation_invariant : forall L s d d' c,
+  schema_keys_okb s = true -> same_content d d' -> denote_json L s d = Ok c -> denote_json L s d' = Ok c.
+Proof. exact denote_json_presentation_invariant. Qed.
+Print Assumptions C05_json_presentation_invariant.
+
+Theorem C05_json_presentations_compose : forall d1 d2 d3, same_content d1 d2 -> same_content d2 d3 -> same_content d1 d3.
+Proof. exact same_content_trans. Qed.
+Print Assumptions C05_json_presentations_compose.
+
+Theorem C05_json_fs_order : forall d js js' es vs,
+  jget K_FS d = Some (JArr js) -> Permutation.Permutation js js' -> fs_entries d = Ok es -> doc_views d = Ok vs ->
+  NoDup (map fst es) -> NoDup (map fst vs) -> same_content d (set_member K_FS (JArr js') d).
+Proof. exact pres_fs_order. Qed.
+Print Assumptions C05_json_fs_order.
+
+Theorem C05_json_dict_form : forall d es vs,
+  jget K_FS d <> None -> fs_entries d = Ok es -> doc_views d = Ok vs -> NoDup (map fst es) -> NoDup (map fst vs) ->
+  same_content d (set_member K_FS (dict_form es) d).
+Proof. exact pres_dict_form. Qed.
+Print Assumptions C05_json_dict_form.
+
+Theorem C05_json_member_order : forall d d' es es' vs,
+  fs_entries d = Ok es -> fs_entries d' = Ok es' -> doc_views d = Ok vs -> doc_views d' = Ok vs ->
+  NoDup (map fst es) -> NoDup (map fst vs) ->
+  Forall2 (fun e e' => fst e = fst e' /\ NoDup (map fst (snd e)) /\ Permutation.Permutation (snd e) (snd e')) es es' ->
+  same_content d d'.
+Proof. exact pres_member_order. Qed.
+Print Assumptions C05_json_member_order.
+
+Theorem C05_json_document_member_order : forall l l' es vs,
+  NoDup (map fst l) -> Permutation.Permutation l l' -> fs_entries (JObj l) = Ok es -> doc_views (JObj l) = Ok vs ->
+  NoDup (map fst es) -> NoDup (map fst vs) -> same_content (JObj l) (JObj l').
+Proof. exact pres_document_member_order. Qed.
+Print Assumptions C05_json_document_member_order.
+
+Theorem C05_json_view_order : forall d vs vs' es,
+  fs_entries d = Ok es -> doc_views d = Ok vs -> Permutation.Permutation vs vs' -> NoDup (map fst es) -> NoDup (map fst vs) ->
+  same_content d (set_member K_VIEWS (JObj vs') d).
+Proof. exact pres_view_order. Qed.
+Print Assumptions C05_json_view_order.
+
+(* ================================================================================================ non-vacuity *)
+
+(* the C02 example CAS (three views with BMP / astral text, a sofa byte array without id, an extended DocumentAnnotation,
+   annotations behind astral characters, arrays, reserved feature names, a shared reference): all premises hold, the
+   document is closed, and the id-keyed, reversed presentation of it denotes the same content *)
+Example PropsJson_premises_hold :
+  let s := full_schema (c_user CorrC02.ex_case) in
+  match save_json std_lex s MMinimal (c_cas CorrC02.ex_case) with
+  | Ok (d, c') =>
+      wf_jsonb s c' = true /\ ids_distinctb s c' = true /\ refs_wfb s c' = true /\ 0 < c_next_id (c_cas CorrC02.ex_case) /\
+      schema_keys_okb s = true /\
+      doc_ids_distinctb d = true /\ doc_refs_resolveb d = true /\ doc_ok_json std_lex s d = true /\
+      match fs_entries d with
+      | Ok es => denote_json std_lex s (set_member K_FS (dict_form (rev es)) d) = denote_json std_lex s d
+      | _ => False end
+  | _ => False
+  end.
+Proof. vm_compute. repeat split; reflexivity. Qed.
